@@ -380,7 +380,8 @@ Definition sx_dcfg (x : sexp) : dcfg :=
      d_encoding := sx_bool (sx_nth 5 x);
      d_recover := sx_bool (sx_nth 6 x);
      d_recover_script := map sx_action (sx_list (sx_nth 7 x));
-     d_condpanic := map sx_int (sx_list (sx_nth 10 x)) |}.
+     d_condpanic := map sx_int (sx_list (sx_nth 10 x));
+     d_plain := map (fun y => (sx_str (sx_nth 0 y), (sx_bool (sx_nth 1 y), map sx_action (sx_list (sx_nth 2 y))))) (sx_list (sx_nth 11 x)) |}.
 
 Definition res_obs (r : res) : sexp :=
   let s := state_of r in
@@ -423,11 +424,15 @@ Definition run_disp (c impl : sexp) : sexp :=
         let req := sx_request (sx_nth 1 h) in
         implb no_panic_scripts
               (sexp_eqb (of_strs (map strip_event (filter structural_event (sx_strs (sx_nth 5 io)))))
-                        (of_strs (expected_events O cfg req)))) per in
+                        (of_strs (match assoc (rq_path req) (d_plain cfg), Z.eqb (sx_int (sx_nth 0 h)) 1 with
+                                  | Some (wf, _), true => if wf then chain_events (d_cfilters cfg) [] else []
+                                  | _, _ => expected_events O cfg req
+                                  end)))) per in
   let v_c06_attrs := forallb (fun x =>
         let h := fst (fst x) in let io := snd x in
         let req := sx_request (sx_nth 1 h) in
-        implb (no_panic_scripts && negb (cfg_has_fresh cfg))
+        implb (no_panic_scripts && negb (cfg_has_fresh cfg) &&
+               negb (match assoc (rq_path req) (d_plain cfg) with Some _ => Z.eqb (sx_int (sx_nth 0 h)) 1 | None => false end))
               (sexp_eqb (of_strs (filter (fun e => has_prefix e (L "see:")) (sx_strs (sx_nth 5 io))))
                         (of_strs (expected_sees O cfg req)))) per in
   let v_c07 := forallb (fun x =>
@@ -442,7 +447,11 @@ Definition run_disp (c impl : sexp) : sexp :=
         let h := fst x in let io := snd x in
         encoding_labelled (sx_request (sx_nth 1 h)) (sx_str (sx_nth 2 h))
                           (impl_hvalues H_ContentEncoding (sx_nth 2 io)) (sx_bool (sx_nth 4 io))) (combine hist i_conc) in
-  let v_c10_noescape := forallb (fun io => implb (d_recover cfg) (Nat.eqb (List.length (sx_list (sx_nth 0 io))) 0)) i_seq in
+  (* plain handlers (Handle / HandleWithFilter) have no recovery by construction: outside C10's scope *)
+  let is_plain (h : sexp) := match assoc (rq_path (sx_request (sx_nth 1 h))) (d_plain cfg) with
+                             | Some _ => Z.eqb (sx_int (sx_nth 0 h)) 1 | None => false end in
+  let v_c10_noescape := forallb (fun x => let h := fst (fst x) in let io := snd x in
+                                   implb (d_recover cfg && negb (is_plain h)) (Nat.eqb (List.length (sx_list (sx_nth 0 io))) 0)) per in
   let v_c10_once := forallb (fun io => implb (d_recover cfg) (Z.leb (sx_int (sx_nth 6 io)) 1)) i_seq in
   let v_c10_ledger := Z.eqb (sx_int (sx_nth 0 led)) (sx_int (sx_nth 1 led))
                       && Z.eqb (sx_int (sx_nth 2 led)) 0 && Z.eqb (sx_int (sx_nth 3 led)) 0
@@ -481,7 +490,9 @@ Definition run_disp (c impl : sexp) : sexp :=
         A (L cls);
         Lst [ verdict "kf:K-C07-1" kf7; verdict "no_panic_scripts" no_panic_scripts;
               verdict "concurrent" (negb (Z.eqb mode 0));
-              verdict "history_longer_than_one" (Nat.ltb 1 (List.length hist)) ] ].
+              verdict "history_longer_than_one" (Nat.ltb 1 (List.length hist));
+              verdict "has_plain_handler" (negb (Nat.eqb (List.length (d_plain cfg)) 0));
+              verdict "trace_logging_on" (sx_bool (sx_nth 12 (sx_nth 1 c))) ] ].
 
 (* ---- domain "resp" (C15) ----
    case: (oracles script comp pretty via ops); impl: (((err fails-after) ...) StatusCode ContentLength seen accepted panicked) *)
